@@ -428,13 +428,15 @@ where
         }
         if len == 0 {
             L::zero().emplace(&mut self.data).unwrap();
-        } else {
+        } else if len < self.len() {
             let mut iter = self.bytes_mut_iter();
-            let _ = iter.nth(len - 1);
-            // `iter.data` now starts at the slot of item `len`, if there is one: terminate the chain there.
-            if let Some(data) = iter.data {
-                L::zero().emplace(data).unwrap();
+            if len > 1 {
+                let _ = iter.nth(len - 2);
             }
+            // `iter.data` now starts at the slot of item `len - 1`: mark it as the last item.
+            // It gets back the rest of the buffer, and the bytes are the same as if the
+            // remaining items had been emplaced directly.
+            L::max_value().emplace(iter.data.unwrap()).unwrap();
         }
     }
 }
